@@ -68,7 +68,8 @@ type faultyStore struct {
 	c            *mc.Ctx
 	p            drvParams
 	node         *sk.Node
-	plan         []int // fault position for the successive attempts on the faulted block (0 = no fault)
+	plan         []int // fault position for the successive attempts on the faulted block (0 = no fault, K+1 = the COMMIT fails)
+	K            int
 	attempt      int
 	sequence     []uint64
 	inconsistent bool
@@ -85,7 +86,9 @@ func (s *faultyStore) ProcessBlock(ctx context.Context, b aggsync.Block) error {
 		k = s.plan[s.attempt]
 		s.attempt++
 	}
-	if k > 0 {
+	if k > s.K {
+		s.node.ArmCommit(true)
+	} else if k > 0 {
 		s.node.Arm(k)
 	}
 	err := s.node.W.ProcessBlock(ctx, b)
@@ -184,16 +187,16 @@ func runDriver(c *mc.Ctx, p drvParams) {
 	// fault plan: the same write fails on 1..MaxRetry consecutive attempts (MaxRetry = the driver gives
 	// up); thorough additionally explores every (first, second) position pair
 	var plan []int
-	if k := c.Choose(K+1, "fault-position"); k > 0 { // 0 = no fault
+	if k := c.Choose(K+2, "fault-position"); k > 0 { // 0 = no fault, K+1 = the COMMIT fails
 		n := 1 + c.Choose(p.MaxRetry, "consecutive-failing-attempts")
 		for a := 0; a < n; a++ {
 			plan = append(plan, k)
 		}
 		if c.Tier == "thorough" && n == 2 {
-			plan[1] = 1 + c.Choose(K, "second-fault-position")
+			plan[1] = 1 + c.Choose(K+1, "second-fault-position")
 		}
 	}
-	st := &faultyStore{c: c, p: p, node: node, plan: plan, sequence: seq}
+	st := &faultyStore{c: c, p: p, node: node, plan: plan, sequence: seq, K: K}
 	st.CompatibilityDataStorager = node.W.(compatibility.CompatibilityDataStorager[aggsync.RuntimeData])
 	exited := false
 	saved := aggsync.LogFatalf
